@@ -439,7 +439,7 @@ pub fn run(ctx: &Ctx) -> i32 {
     });
     outcome.absorb(&known, fails);
 
-    let fuzz = fuzz_stage(ctx, &stats, &mut outcome, &known, "preprocess", 8, 3_000_000, 256, &[b"a /* b */ c // d\n".to_vec(), "/** é **/ x".as_bytes().to_vec()], &|a| {
+    let fuzz = fuzz_stage(ctx, &stats, &mut outcome, &known, "preprocess", 8, 1_000_000, 256, &[b"a /* b */ c // d\n".to_vec(), "/** é **/ x".as_bytes().to_vec()], &|a| {
         match std::str::from_utf8(a) {
             Ok(s) => check_stripper(s).map_err(|b| b.rendered(s.to_string())),
             Err(_) => Ok(()),
